@@ -18,7 +18,8 @@ import gen
 import harness
 import tlc
 
-sys.path.insert(0, "/repo")
+import paths  # noqa: E402
+sys.path.insert(0, paths.REPO)
 
 
 def unq(s):
